@@ -113,6 +113,18 @@ pub fn programs() -> Vec<Prog> {
         let key = format!("roles={}{}{}", comps.iter().filter(|c| has(c)).cloned().collect::<String>(), if with_r && r_first { "R1st" } else if with_r { "R" } else { "" }, if extras { "+extras" } else { "" });
         out.push(Prog { key, src, structs });
     }
+    // every vector / matrix shape as a member (directly and in arrays) of a host-only and of a vertex-only struct: the
+    // field types are a function of the representation alone, never of the derive switches
+    {
+        let mut members = vec![];
+        let mut i = 0;
+        for t in ["vec2<f32>", "vec3<f32>", "vec4<f32>", "vec3<u32>", "vec2<i32>", "mat2x2<f32>", "mat3x3<f32>", "mat4x4<f32>", "mat2x3<f32>", "mat4x3<f32>", "mat3x4<f32>", "array<mat3x3<f32>, 2>", "array<vec3<f32>, 3>", "array<mat2x2<f32>, 2>"] {
+            members.push(format!("m{i}: {t}"));
+            i += 1;
+        }
+        let src = format!("struct MatHost {{ {} }};\n@group(0) @binding(0) var<uniform> mat_host: MatHost;\nstruct VecVertex {{ @location(0) a: vec2<f32>, @location(1) b: vec3<f32>, @location(2) c: vec4<f32>, @location(3) d: vec3<u32> }};\n@vertex fn vs_main(v: VecVertex) -> @builtin(position) vec4<f32> {{\n    return vec4<f32>(mat_host.m0.x);\n}}\n@fragment fn fs_main() -> @location(0) vec4<f32> {{\n    return vec4<f32>(1.0);\n}}\n@compute @workgroup_size(2, 3) fn cs_main() {{\n}}\n", members.join(", "));
+        out.push(Prog { key: "roles=matrix-members".into(), src, structs: vec![RoleStruct { name: "MatHost", host: true, rts: false }, RoleStruct { name: "VecVertex", host: false, rts: false }] });
+    }
     // a struct nested in a host struct at each member position, with members of repeated types around it; the nested
     // struct is also a vertex input / only nested
     for pos in 0..3usize {
@@ -204,7 +216,7 @@ pub fn run(tier: &str) -> i32 {
     let mut progs = programs();
     if !thorough {
         // quick: every single component and the full set, plus runtime-array variants
-        progs.retain(|p| p.key.len() <= "roles=XX".len() || p.key.contains("VHBFNW") || p.key.contains('R') || p.key.contains("nested-both"));
+        progs.retain(|p| p.key.len() <= "roles=XX".len() || p.key.contains("VHBFNW") || p.key.contains('R') || p.key.contains("nested-both") || p.key.contains("matrix-members"));
         let _ = 0;
     }
     let configs = all_configs_192();
